@@ -43,12 +43,14 @@ def tspan_carrier(rng, lo, hi):
         d = dt.datetime(1970, 1, 1) + dt.timedelta(seconds=s)
         if how == "iso":
             return d.strftime("%Y-%m-%dT%H:%M:%S")
+        if how == "us":  # month/day/year: the text order of two such strings is not their date order
+            return d.strftime("%m/%d/%Y %H:%M:%S")
         if how == "ts":
             return pd.Timestamp(d)
         if how == "dt":
             return d
         return np.datetime64(d, "s")
-    how = rng.choice(["iso", "ts", "dt", "dt64"])
+    how = rng.choice(["iso", "ts", "dt", "dt64", "us"])
     sp = [one(lo, how), one(hi, how)]
     return tuple(sp) if rng.random() < 0.3 else sp
 
@@ -247,3 +249,21 @@ def run(ctx) -> None:
         ctx.count("climatology.calls")
         ctx.count("climatology.subsecond_instant_calls")
         ctx.case(f"subsecond|{carq}|k{len(members)}")
+
+    # ---- spans with decimal (non-dyadic) bounds and one-sided spans: a value ON a bound is inside, the next float beyond it is
+    #      outside, an infinite bound never excludes anything
+    inf = float("inf")
+    for _ in range(ctx.pick(150, 800)):
+        vs = rng.choice([(2.2, 35.7), (0.1, 0.3), (-2.4, -2.1), (10.3, inf), (-inf, 30.1), (1e-3, 1013.25), (0.7, 1.1)])
+        fs_ = rng.choice([None, (vs[0] - rng.choice([0.3, 1.1]) if vs[0] != -inf else -inf, vs[1] + rng.choice([0.2, 2.3]) if vs[1] != inf else inf)])
+        bounds = [b for b in (*vs, *(fs_ or ())) if abs(b) != inf]
+        xv = []
+        for b in bounds:
+            xv += [b, float(np.nextafter(b, -inf)), float(np.nextafter(b, inf))]
+        xv += [1e300, -1e300, 0.0]
+        rng.shuffle(xv)
+        a = epoch(rng.choice(EDGE_DAYS))
+        tq = [a + 60 * k for k in range(len(xv))]
+        members = [{"tspan": [a - 10, a + 86400], "vspan": list(vs), "fspan": None if fs_ is None else list(fs_), "zspan": None, "period": None}]
+        clim_case(ctx, members, xv, tq, None, "decimal-bounds", carrier=rng.choice(CARRIERS))
+        ctx.count("climatology.decimal_bound_calls")
